@@ -444,3 +444,25 @@ func VfC04SetupWorker() {
 		vf.Reach("aborted")
 	}
 }
+
+// VfC13SetupStall: the handshake loop (handleSetupMessages, real code, either
+// role) on a connection whose remote end sends anything, nothing, or breaks:
+// every Read of the setup phase must be covered by a deadline - a Read without
+// one blocks for ever when the remote accepts the connection and stays silent,
+// and with it the worker that runs the setup (the connect manager dials and
+// sets up synchronously; every incoming connection holds a setup worker). No
+// panic either.
+func VfC13SetupStall() {
+	remote := vfAddr4()
+	w := vfWorld(&m.PublicAddress{IP: remote, PublicKey: ed25519.PublicKey(vfKey4(81, 32))})
+	conn := &vfConn{readsLeft: vf.Param("reads")}
+	link := &LinkBase{conn: conn, peering: w.p, closed: make(chan struct{}), outgoing: vf.Bool()}
+	_, err := link.handleSetupMessages(link.outgoing)
+	vf.Assert(conn.readsWithoutDeadline == 0, "handshake-read-without-deadline")
+	if err != nil {
+		vf.Reach("setup-failed")
+	}
+	if len(conn.reqs) > 0 {
+		vf.Reach("read-attempted")
+	}
+}
